@@ -28,7 +28,13 @@ def tool_error(msg):
 
 
 def build_dir(cid):
-    d = os.path.join(VERIF, ".build", cid)
+    # one build directory per (tree under test, check): a run against a scratch worktree (bin/seedrun) must not clobber
+    # the overlay and test binary of a concurrent run against /repo
+    if os.path.realpath(REPO) == "/repo":
+        d = os.path.join(VERIF, ".build", cid)
+    else:
+        tag = hashlib.sha1(os.path.realpath(REPO).encode()).hexdigest()[:8]
+        d = os.path.join(VERIF, ".build", "alt-" + tag, cid)
     os.makedirs(d, exist_ok=True)
     return d
 
